@@ -8,13 +8,19 @@
    start tag the lexer reports occurs in the text, the root of the tree is the first start
    tag, a tree read as a message has a registered tag, the buffer looks for exactly those) -
    so for the concrete parser the framing theorem needs only (i).  (i) is decidable
-   (spelling_is_decidable) and evaluated on every generated spelling; proving it for every
-   printed message (XML round trip and prefix-freeness) is the remaining step: PARTIAL at
-   that point only. *)
+   (spelling_is_decidable) and evaluated on every generated spelling, and it is PROVED of
+   the text to_string writes for every constructible, printable message
+   (printed_message_is_a_spelling, Buffer/Spelling.v: the XML print-then-parse identity,
+   the message round trip, and prefix-freeness - once the root element has closed the
+   lexer accepts blanks only, and the text ends with '>').  The two theorems at the end
+   (every_stream_of_written_messages_is_read_back, ..._promptly) therefore assume nothing
+   about the parser: they speak of the buffer with the concrete parser and the live tags,
+   every list of constructible messages written by to_string, every cut into pieces; the
+   one hypothesis left is that each message fits the threshold (see K1). *)
 From Coq Require Import List NArith Bool Arith.
 Import ListNotations.
-From Indi Require Import Base.Sx Buffer.Model Buffer.Props Buffer.Junk Buffer.Framing Buffer.Run Buffer.Concrete
-  Msg.Registry Msg.RegOk Msg.Equality Generated.RegistryData.
+From Indi Require Import Base.Sx Buffer.Model Buffer.Props Buffer.Junk Buffer.Framing Buffer.Run Buffer.Concrete Buffer.Spelling
+  Msg.Registry Msg.RegOk Msg.Equality Msg.Model Msg.Codec Xml.Lex Xml.Print Generated.RegistryData.
 
 (* A stream l = junk, message, junk, message, ... (junk free of known-tag openers:
    whitespace, XML declarations, anything else) cut into ANY pieces: every process()
@@ -71,3 +77,51 @@ Theorem concrete_framing_lossless_ordered_prompt : forall thr pieces l data u,
              msgs msg l = deliveries msg outs ++ msgs msg l' /\ nothing_overdue msg l' dfin.
 Proof. exact (fun thr => framing msg concrete_parse (rbuffer_tags live_registry) thr live_tags_clean concrete_parse_needs_opener). Qed.
 Print Assumptions concrete_framing_lossless_ordered_prompt.
+
+(* (i) for the concrete parser: the element text written for a constructible, printable message
+   that fits the threshold is a complete spelling of it *)
+Theorem printed_message_is_a_spelling : forall thr m,
+  wfb live_registry m = true -> printable m = true -> fits thr m ->
+  spelling msg concrete_parse (rbuffer_tags live_registry) thr (norm_msg m) (wire_text m).
+Proof. exact Buffer.Spelling.printed_message_is_a_spelling. Qed.
+Print Assumptions printed_message_is_a_spelling.
+
+(* no proper prefix of a printed element is a complete XML document *)
+Theorem no_prefix_of_a_printed_element_parses : forall t k,
+  Xml.RoundTrip.tree_ok t -> 0 < k < length (print_tree t) -> fst (Xml.Lex.parse (firstn k (print_tree t))) <> 0%N.
+Proof. exact Buffer.Spelling.no_prefix_of_a_printed_element_parses. Qed.
+Print Assumptions no_prefix_of_a_printed_element_parses.
+
+(* END TO END, nothing assumed of the parser: whatever constructible messages are written with
+   to_string one after the other, and however the bytes are cut into pieces, the buffer hands
+   over exactly those messages (empty text = absent text), in order; every call terminates *)
+Theorem every_stream_of_written_messages_is_read_back : forall thr ms pieces,
+  Forall (sendable thr) ms -> concat pieces = concat (map to_string ms) ->
+  let '(outs, dfin) := feed msg concrete_parse (rbuffer_tags live_registry) thr [] pieces in
+  Forall (fun om => fst om = Done) outs /\ deliveries msg outs = map norm_msg ms.
+Proof. exact Buffer.Spelling.every_stream_of_written_messages_is_read_back. Qed.
+Print Assumptions every_stream_of_written_messages_is_read_back.
+
+(* ... promptly: after any number of pieces (u = the bytes still to come) the data retained covers
+   no complete message - every message whose last byte has arrived has been handed over *)
+Theorem written_messages_are_delivered_promptly : forall thr ms pieces u,
+  Forall (sendable thr) ms -> concat pieces ++ u = concat (map to_string ms) ->
+  let '(outs, dfin) := feed msg concrete_parse (rbuffer_tags live_registry) thr [] pieces in
+  exists l', wf msg concrete_parse (rbuffer_tags live_registry) thr l' /\ dfin ++ u = flatten msg l' /\
+             map norm_msg ms = deliveries msg outs ++ msgs msg l' /\ nothing_overdue msg l' dfin.
+Proof. exact Buffer.Spelling.written_messages_are_delivered_promptly. Qed.
+Print Assumptions written_messages_are_delivered_promptly.
+
+(* non-vacuity: a notice and a vector with children are sendable under the default threshold, and
+   the buffer model, run on their bytes cut after every third byte, hands over both *)
+From Coq Require Import String.
+Example c02_stream_nonvacuous :
+  let note := {| mk := s2l "message"; ma := [(s2l "device", s2l "d"); (s2l "message", [60; 233; 128512]%N)]; mv := None; mc := None |} in
+  let vec := {| mk := s2l "newTextVector"; ma := [(s2l "device", s2l "d"); (s2l "name", s2l "n")]; mv := None;
+                mc := Some [ {| pk := s2l "oneText"; pa := [(s2l "name", s2l "a")]; pv := Some (s2l "x > y") |} ] |} in
+  (wfb live_registry note && printable note && Nat.leb (List.length (wire_text note)) 2048 &&
+   wfb live_registry vec && printable vec && Nat.leb (List.length (wire_text vec)) 2048)%bool = true /\
+  deliveries msg (fst (feed msg concrete_parse (rbuffer_tags live_registry) (Some 2048) []
+                         (let fix cut (n : nat) (l : str) := match n with O => [] | S n' => match l with [] => [] | _ => firstn 3 l :: cut n' (skipn 3 l) end end
+                          in cut 400 (to_string note ++ to_string vec)))) = [norm_msg note; norm_msg vec].
+Proof. split; vm_compute; reflexivity. Qed.
